@@ -15,7 +15,7 @@ Theorem roundtrip_preserves_store_view :
     mem_ustr kid ids = true -> plain_dict kw = true -> id_given w kid kw = true ->
     run vr ev w pattern_ok selectors_ok fuel (RConstruct kid allow interop kw vrefs) = Ok o ->
     run vr ev w pattern_ok selectors_ok fuel (RConstruct kid allow interop (omem o) vrefs) = Ok o' ->
-    store_view tag o' = store_view tag o.
+    o' = o /\ store_view tag o' = store_view tag o.
 Proof. exact Proofs.StoreRoundtrip.roundtrip_preserves_store_view. Qed.
 Print Assumptions roundtrip_preserves_store_view.
 
@@ -33,6 +33,16 @@ Theorem bundle_roundtrip_preserves_store_views :
     run vr ev w pattern_ok selectors_ok fuel (RConstruct kid allow interop kw vrefs) = Ok o ->
     bundle_members_ok w pids kw o = true ->
     run vr ev w pattern_ok selectors_ok fuel (RConstruct kid allow interop (omem o) vrefs) = Ok o' ->
-    bundle_views tag o' = bundle_views tag o.
+    o' = o /\ bundle_views tag o' = bundle_views tag o.
 Proof. exact Proofs.StoreRoundtrip.bundle_roundtrip_preserves_store_views. Qed.
 Print Assumptions bundle_roundtrip_preserves_store_views.
+
+(* store_view is not the trivial None: a concrete identity object has the expected view.  The hypotheses of the two
+   theorems (closed_okw / closed_ok, registry_ok, bundle_ok, ...) are property C01's coverage predicates; that they
+   hold of the tables generated from /repo is C01's lib_proved_closedw / lib_bundle_okb (Props/C01.v), not restated here. *)
+Example store_view_is_informative :
+  store_view 7 sv_example =
+  Some (Store.mkObj (u "identity--00000001-0000-4000-8000-000000000001") (u "identity")
+                    (Store.VInst 1577836800000000%Z) (Store.VInst 1420070400000000%Z) 7
+                    [(Store.k_created_by_ref, u "identity--00000002-0000-4000-8000-000000000002")]).
+Proof. exact store_view_example. Qed.
